@@ -122,7 +122,9 @@ func c06RouteLeaderCancel(o *hx.Out, rng *hx.Rng, shard int64, term int64, en bo
 	bcancel()
 	hx.Must(err)
 	if !c06WaitFor(func() bool { return rpc.get() != nil }) {
-		panic("the leader did not open a replication stream to its follower")
+		o.Count("not-started:leader-replication-stream") // timing: no verdict
+		_ = lc.Close()
+		return
 	}
 	stub := rpc.get()
 
@@ -219,7 +221,10 @@ func c06RouteLeaderCancel(o *hx.Out, rng *hx.Rng, shard int64, term int64, en bo
 	fn := newC06Node("leadcf", shard)
 	defer fn.close()
 	f := c06StartFollower(fn, term, en, true)
-	f.attach()
+	if !f.attach() {
+		c06NotStarted(o, f)
+		return
+	}
 	applied := f.feedRaw(entries)
 	f.stop()
 	if !applied {
